@@ -827,6 +827,12 @@ class Analysis:
             base, path = (p[1][1], p[1][2]) if p[1][0] == "field" else (p[1], ())
             return self.read_cell(st, base, path, targs[0])
         if fn in ("core::slice::IterMut::<'a, T>::into_slice", "core::slice::Iter::<'a, T>::as_slice", "core::slice::IterMut::<'a, T>::as_slice") and args \
+                and isinstance(args[0], tuple) and args[0] and args[0][0] == "P" and not args[0][2].t and args[0][3] is None:
+            # called through a reference to the local that holds the iterator: the iterator value itself
+            held_ = self.read_cell(st, args[0][1], (), None) if args[0][1][0] in ("local", "arg") else None
+            if isinstance(held_, tuple) and len(held_) == 5 and held_[:3] == ("V", "iter", "slice"):
+                args = [held_] + list(args[1:])
+        if fn in ("core::slice::IterMut::<'a, T>::into_slice", "core::slice::Iter::<'a, T>::as_slice", "core::slice::IterMut::<'a, T>::as_slice") and args \
                 and isinstance(args[0], tuple) and len(args[0]) == 5 and args[0][:3] == ("V", "iter", "slice") \
                 and not any(t_["term"]["k"] == "call" and t_["term"]["f"].get("k") == "fn" and t_["term"]["f"]["def"] in (
                     "core::iter::Iterator::next", "core::iter::DoubleEndedIterator::next_back", "core::iter::Iterator::nth", "core::iter::Iterator::for_each",
